@@ -95,6 +95,26 @@ impl SharedHistory {
         // Update the snapshot. The refresh time and object information may
         // have changed.
         history.current = Some(snapshot.into());
+        // The creation time changes in the same critical section as the
+        // data so that the HTTP validators derived from them (ETag from the
+        // serial, Last-Modified from the creation time) always belong to
+        // the same version.
+        let now = Utc::now();
+        history.created = {
+            if let Some(created) = history.created {
+                // Since we increase the time, the created time may
+                // actually have moved into the future.
+                if now.timestamp() <= created.timestamp() {
+                    Some(created + chrono::Duration::try_seconds(1).unwrap())
+                }
+                else {
+                    Some(now)
+                }
+            }
+            else {
+                Some(now)
+            }
+        };
         res
     }
 
@@ -121,21 +141,6 @@ impl SharedHistory {
                 locked.next_update_start = refresh;
             }
         }
-        locked.created = {
-            if let Some(created) = locked.created {
-                // Since we increase the time, the created time may
-                // actually have moved into the future.
-                if now.timestamp() <= created.timestamp() {
-                    Some(created + chrono::Duration::try_seconds(1).unwrap())
-                }
-                else {
-                    Some(now)
-                }
-            }
-            else {
-                Some(now)
-            }
-        };
     }
 }
 
